@@ -94,7 +94,20 @@ func runC01(cx *Ctx, r *Report) {
 			pos := b.ev.Pos(cx)
 			isRes := func(d, other string) func(string) bool {
 				return func(t string) bool {
-					return strings.HasPrefix(t, "sdk.Coins.AmountOf(") && strings.HasSuffix(t, ", "+d+")") && (strings.Contains(t, "(keeper, "+d+", "+other+")") || strings.Contains(t, "(keeper, "+other+", "+d+")"))
+					if !strings.HasPrefix(t, "sdk.Coins.AmountOf(") || !strings.HasSuffix(t, ", "+d+")") {
+						return false
+					}
+					// the balances are those of the pool of exactly this pair of denoms: looked up
+					// by both denoms, or by the pool id of the pair's non-standard denom
+					if strings.Contains(t, "(keeper, "+d+", "+other+")") || strings.Contains(t, "(keeper, "+other+", "+d+")") {
+						return true
+					}
+					for _, k := range []string{d, other, "φ{" + d + "|" + other + "}", "φ{" + other + "|" + d + "}"} {
+						if strings.Contains(t, "GetPoolId("+k+")") {
+							return true
+						}
+					}
+					return false
 				}
 			}
 			X, xt, okx := findLeaf(fx, []Rat{A, B}, isRes(dS, dB))
